@@ -190,6 +190,26 @@ def x_tree(ctx, case):
             keys_pre = keys_post = []
         ctx.check(ok_shape, "sorted.plain-flattened-custom-kept-whole",
                   lambda: {"top": [type(c).__name__ for c in top], **detail()})
+        # custom suites nested inside other custom suites survive as the same objects, too
+        all_customs = {}
+
+        def collect_all(obj):
+            try:
+                it = list(iter(obj))
+            except TypeError:
+                return
+            if type(obj) is not unittest.TestSuite:
+                all_customs[id(obj)] = obj
+            for c in it:
+                collect_all(c)
+        present = {}
+        collect_all(st)
+        present, all_customs = all_customs, {}
+        collect_all(s)
+        missing = [type(o).__name__ for i, o in all_customs.items()
+                   if i not in present and _under_custom(s, o)]
+        ctx.check(not missing, "sorted.plain-flattened-custom-kept-whole",
+                  lambda: {"nested custom suites dissolved": missing, **detail()})
         ctx.check(keys_pre == sorted(keys_pre) or keys_post == sorted(keys_post), "sorted.ordered-by-id",
                   lambda: {"placement keys": keys_pre, "after inner sort": keys_post, **detail()})
         # the sorted suite can still be filtered (testtools.run discover --load-list does exactly that)
@@ -208,6 +228,21 @@ def x_tree(ctx, case):
                 inner = [t.id() for t in obj]
                 ctx.check(inner == sorted(inner), "sorted.sort_tests-honoured", lambda: {"inner": inner})
     return len(L) >= 2
+
+
+def _under_custom(root, target, inside=False):
+    """Is ``target`` (a suite object) nested somewhere inside a custom suite of ``root``?"""
+    try:
+        it = list(iter(root))
+    except TypeError:
+        return False
+    here_custom = type(root) is not unittest.TestSuite
+    for c in it:
+        if c is target and (inside or here_custom):
+            return True
+        if _under_custom(c, target, inside or here_custom):
+            return True
+    return False
 
 
 _mod_counter = itertools.count()
@@ -415,11 +450,11 @@ def run(ctx):
         if ctx.out_of_time():
             break
         ids = fresh_ids(rng)
-        tree = random_tree(rng, rng.randint(1, 3), ids, 0)
+        tree = random_tree(rng, rng.randint(1, 3), ids, rng.choice([0, 0, 0.2]))
         if tree[0] == "leaf":
             tree = ["plain", [tree]]
         L = leaves(tree)
-        keep = [x for x in L if rng.random() < 0.5] + (["absent id"] if rng.random() < 0.3 else [])
+        keep = [x for x in dict.fromkeys(L) if rng.random() < 0.5] + (["absent id"] if rng.random() < 0.3 else [])
         rng.shuffle(keep)
         ctx.execute("run", {"tree": tree, "keep": keep, "style": rng.randrange(6)})
     for i in range(ctx.scale(3, 32)):
